@@ -117,14 +117,16 @@ func Clean(m *testing.M, opts ...CleanOpts) {
 	}
 }
 
-// getTestID will return the testID if the line is in the form of [Test... - number]
+// getTestID will return the testID if the line is in the form of [<test name> - number]
 func getTestID(b []byte) (string, bool) {
 	if len(b) == 0 {
 		return "", false
 	}
 
-	// needs to start with [Test and end with ]
-	if !bytes.HasPrefix(b, []byte("[Test")) || b[len(b)-1] != ']' {
+	// needs to start with [ and end with ]
+	// (test names are not required to start with "Test": fuzz targets, benchmarks
+	// and custom testingT implementations produce other names)
+	if b[0] != '[' || b[len(b)-1] != ']' {
 		return "", false
 	}
 
